@@ -106,18 +106,26 @@ def eval_case(case):
                            f'first differing token #{k}; ppi={ppi} sims={sims} block={bx}x{by} c_len={c_len} real={got[:300]} model={a[:300]}'))
     # hypotheses of C06.s_to_c_paths_agree on the real tables: flags agree (rows without (P)PI memory are skipped by both paths
     # since the repair D31; `rows-unallocated` is kept as a coverage tag only)
-    rows_ok = True
+    # … evaluated by the DRIVER (Proofs/WaveIOCheck.lean: regionsDisjointB, flagsOKB, transferRowsB, stateRowsCapturedB, capsPositiveB
+    # on the real tables and the real `s`), not re-implemented here
+    ppoS = ','.join(map(str, ppo)) or '-'
+    capS = ','.join(str(int(x)) for x in np.array(cpu.c_caps)[cpu.ppo_offset:cpu.ppo_offset + s_len]) or '-'
+    hv = common.run_driver([f'wio-hyp {DEN} {sims} {s_len} {n_io} {ppiS} {ppoS} {capS} {sS}'])[0]
+    H = dict(kv.split('=') for kv in hv.split()) if '=' in hv else {}
+    if set(H) != {'disj', 'rows', 'caps', 'flags', 'transfer'}:
+        broken.append(('path-tie: driver wio-hyp', hv[:200])); return broken, tags
+    rows_ok = H['disj'] == 'true'
     tags.append('tie-stoc-rows:' + ('all-allocated' if all(ppi[y] >= 0 for y in range(n_io, s_len)) else 'orphan-state-element'))
-    used = [y for y in range(s_len) if ppi[y] >= 0]
-    flags_ok = all((float(s0[k, y, x]) != 0) == (float(s0[k, y, x]) >= 0.5) for k in (0, 2) for y in used for x in range(sims))
-    tags.append('tie-stoc-hyp:' + ('hold' if rows_ok and flags_ok else 'rows-unallocated' if not rows_ok else 'flags-differ'))
+    flags_ok = H['flags'] == 'true'
+    tags.append('tie-stoc-hyp:' + ('hold' if rows_ok and flags_ok else 'regions-overlap' if not rows_ok else 'flags-differ'))
+    if not rows_ok:      # (P)PI regions of a real map are disjoint (domain fact, C08): outside = broken tie
+        broken.append(('path-tie: regionsDisjointB fails on the real (P)PI table', f'ppi={ppi}'))
     if rows_ok and flags_ok and 'cpu' in real and 'gpu' in real and not np.array_equal(real['cpu'], real['gpu']):
         broken.append(('path-tie: hypotheses of s_to_c_paths_agree hold but the two real arrays c differ', f'ppi={ppi}'))
     # ---- s_ppo_to_ppi
     t = rng.choice([0.0, 0.0, 3.5, 12.0])
     for ws in (cpu, gpu):
         ws.s[...] = s0
-    ppoS = ','.join(map(str, ppo)) or '-'
     sS4 = _s_rows(s0, sims, (0, 1, 2, 8))
     reqs = [f'wio-ppi {p} {sims} {bx} {by} {s_len} {n_io} {ppiS} {ppoS} {wc.enc(t)} {sS4}' for p in ('cpu', 'gpu')]
     ans = common.run_driver(reqs)
@@ -133,8 +141,7 @@ def eval_case(case):
         if got != a or not untouched:
             broken.append((f'path-tie: s_ppo_to_ppi model ({p}) = real {type(ws).__name__}.s_ppo_to_ppi',
                            f'ppi={ppi} ppo={ppo} n_io={n_io} sims={sims} real={got[:300]} model={a[:300]} other-fields-untouched={untouched}'))
-    both = lambda y: ppi[y] >= 0 and ppo[y] >= 0
-    hyp = all(not both(y) for y in range(n_io)) and all(both(y) for y in range(n_io, s_len))
+    hyp = H['transfer'] == 'true'
     tags.append('tie-ppi-hyp:' + ('hold' if hyp else 'rows-differ'))
     if hyp and 'cpu' in real and 'gpu' in real and not np.array_equal(real['cpu'], real['gpu']):
         broken.append(('path-tie: hypotheses of ppo_to_ppi_paths_agree hold but the two real arrays s differ', f'ppi={ppi} ppo={ppo}'))
@@ -156,6 +163,31 @@ def eval_case(case):
         a = common.run_driver([f'wio-cap cpu {wc.enc(tcap)} {cs}', f'wio-cap gpu {wc.enc(tcap)} {cs}'])
         if a[0] != want_cpu: broken.append(('path-tie: capture scan model (cpu) = wave_capture_cpu', f'cells={cs} time={tcap} real={want_cpu} model={a[0]}'))
         if a[1] != want_gpu: broken.append(('path-tie: capture scan model (gpu) = wave_capture_gpu', f'cells={cs} time={tcap} real={want_gpu} model={a[1]}'))
+    # ---- whole c_to_s (sd = 0) of both classes on random raw memory vs cpuCToS / gpuCToS, every row and lane
+    mem = np.array([_cells(rng, sims) for _ in range(c_len)], dtype=np.float32).reshape(c_len, sims)
+    tcap = rng.choice([TMAX, rng.randrange(0, 80) / wc.GRID])
+    sentinel = np.float32(-7.0)
+    cS2 = _c_lanes(mem, sims)
+    reqs = [f'wio-ctos {p} {wc.enc(tcap)} {sims} {bx} {by} {s_len} {n_io} {ppoS} {capS} {cS2}' for p in ('cpu', 'gpu')]
+    ans = common.run_driver(reqs)
+    real = {}
+    for ws, p, a in ((cpu, 'cpu', ans[0]), (gpu, 'gpu', ans[1])):
+        try:
+            ws.c[...] = mem; ws.s[3:] = sentinel
+            ws.c_to_s(time=np.float32(tcap), sd=0.0)
+            sr = np.array(ws.s); real[p] = sr
+            got = ';'.join('/'.join('-' if sr[3, y, x] == sentinel and sr[4, y, x] == sentinel else
+                                    f'{int(bool(sr[3, y, x]))},{wc.enc(sr[4, y, x])},{wc.enc(sr[5, y, x])},{int(sr[6, y, x])},{int(sr[8, y, x])},{int(sr[10, y, x])}'
+                                    for y in range(s_len)) for x in range(sims))
+        except Exception as ex:
+            got = f'{type(ex).__name__}: {ex}'[:200]
+        if got != a:
+            broken.append((f'path-tie: c_to_s model ({p}) = real {type(ws).__name__}.c_to_s, captured records of every row and lane',
+                           f'ppo={ppo} caps={capS} n_io={n_io} sims={sims} time={tcap} real={got[:300]} model={a[:300]}'))
+    chyp = H['rows'] == 'true' and H['caps'] == 'true'
+    tags.append('tie-ctos-hyp:' + ('hold' if chyp else 'rows-or-caps'))
+    if chyp and 'cpu' in real and 'gpu' in real and not np.array_equal(real['cpu'][3:], real['gpu'][3:]):
+        broken.append(('path-tie: hypotheses of c_to_s_paths_agree hold but the captured records of the two classes differ', f'ppo={ppo}'))
     tags.append(f'tie-block:{bx}x{by}')
     return broken, tags
 
